@@ -419,6 +419,10 @@ pub use crate::util::object_forwarding::{
     spin_and_get_forwarded_object, state_is_being_forwarded,
     state_is_forwarded_or_being_forwarded, write_forwarding_pointer,
 };
+pub use crate::util::alloc::allocator::{
+    align_allocation, align_allocation_inner, align_allocation_no_fill, get_maximum_aligned_size,
+    get_maximum_aligned_size_inner,
+};
 pub use crate::util::treadmill::TreadMill;
 
 use crate::util::metadata::side_metadata::{SideMetadataContext, SideMetadataSpec};
@@ -470,6 +474,16 @@ pub fn sanity_verify_context(global: &[SideMetadataSpec], local: &[SideMetadataS
         local: local.to_vec(),
     };
     sanity.verify_metadata_context("verif-policy", &ctx);
+}
+
+/// The non-panicking core of the side-metadata sanity check: the size checks plus the pairwise
+/// overlap checks that `SideMetadataSanity::verify_metadata_context` performs on the global specs
+/// and on the local specs.  `Err` carries the message mmtk-core would panic with.
+pub fn sanity_check_specs(
+    global: &[SideMetadataSpec],
+    local: &[SideMetadataSpec],
+) -> Result<(), String> {
+    crate::util::metadata::side_metadata::verif_hooks::sanity_check_specs(global, local)
 }
 
 /// `revisitable_group_by` over a vector: returns `(key, reported len, items)` per group.
